@@ -680,6 +680,102 @@ def oracle(rng, names, reps, tier, res, problems, size_ranks=None):
                 sk[f"{name}: {detail}"] = sk.get(f"{name}: {detail}", 0) + 1
 
 
+# ------------------------------------------------------------------ missing values: ISIMIP step 2 (known finding F21)
+IMPUTE_WHAT = "isimip_step2_imputation_storage_order"
+
+
+def gen_imputation_case(rng, k, tier):
+    """ISIMIP.from_variable("prsnratio") (impute_missing_values=True by default) on dated series with a few NaN entries in
+    cm_future (every third case: in obs), every series fully re-ordered"""
+    case = gen_case(rng, "ISIMIP-prsnratio" if k % 2 == 0 else "ISIMIP-prsnratio-months", tier)
+    case.update(omit="", outliers=None, rounded=False, perms=["full", "full", "full"])
+    for k2 in "OHF":  # every calendar month / window populated (an empty month raises in both runs: nothing to compare)
+        case["spans"][k2] = {"start": list(case["spans"][k2]["start"]), "n": max(case["spans"][k2]["n"], 366)}
+    case["nan"] = {"series": "O" if k % 3 == 2 else "F", "seed": rng.randint(0, 2**31 - 1)}
+    return case
+
+
+def run_imputation_case(case):
+    """Judges the clause `the debiased value of every cm_future time step is unchanged` three times under the same seeding
+    protocol (numpy's global generator re-seeded identically before each run): a control without missing values, then with
+    NaN entries.  returns (status, detail, stats): status in {"ok", "skip", "violation", "known-step2"} (skip: both runs raise the same error):
+      violation   — the control deviates, a run raises, or a deviation at a time step whose input value was present
+                    (or any deviation when the NaNs are in obs: with detrending off the windows see obs as a multiset);
+      known-step2 — the control agrees and ONLY time steps whose cm_future value was imputed deviate: `_step2_impute_values`
+                    assigns the sorted sampled values to the missing entries by interpolating ranks along the array position."""
+    mk, seeded, (o, h, f, dO, dH, dF), (pO, pH, pF) = build(case)
+
+    def run(args):
+        np.random.seed(case["np_seed"] % (2**31))
+        with warnings.catch_warnings():
+            warnings.simplefilter("ignore")
+            try:
+                return mk().apply_location(*args), None
+            except Exception as ex:  # noqa: BLE001
+                return None, type(ex).__name__ + ": " + str(ex)[:80]
+
+    def deviation(oo, hh, ff):
+        a, ea = run((oo.copy(), hh.copy(), ff.copy(), dO, dH, dF))
+        b, eb = run((oo[pO], hh[pH], ff[pF], dO[pO], dH[pH], dF[pF]))
+        if ea and eb and ea.split(":")[0] == eb.split(":")[0]:
+            return "skip", f"both runs raise {ea.split(':')[0]}"
+        if ea or eb:
+            return None, f"ordered input: {ea or 'ok'}; shuffled input: {eb or 'ok'}"
+        want = a[pF]
+        bad = ~((np.abs(b - want) <= 1e-9 * np.maximum(np.abs(want), 1.0)) | (np.isnan(b) & np.isnan(want)))
+        first = ""
+        if bad.any():
+            i = int(np.where(bad)[0][0])
+            first = f"first: {dF[pF][i]} {want[i]!r} -> {b[i]!r}"
+        return bad, first
+
+    stats = {}
+    bad, first = deviation(o, h, f)
+    if isinstance(bad, str):
+        return "skip", first, stats
+    if bad is None:
+        return "violation", "control without missing values: " + first, stats
+    if bad.any():
+        return "violation", (f"control WITHOUT missing values: {int(bad.sum())} of {bad.size} time steps changed their debiased value when the "
+                             f"dated series were re-ordered; {first}"), stats
+    ser = case["nan"]["series"]
+    oo, ff = o.copy(), f.copy()
+    x = oo if ser == "O" else ff
+    idx = np.random.RandomState(case["nan"]["seed"]).choice(x.size, size=max(6, x.size // 15), replace=False)
+    x[idx] = np.nan
+    bad, first = deviation(oo, h, ff)
+    if isinstance(bad, str):
+        return "skip", first, stats
+    if bad is None:
+        return "violation", f"NaN entries in {ser}: " + first, stats
+    missing = np.isnan(ff[pF])
+    stats = {"series": ser, "missing": int(idx.size), "deviating": int(bad.sum()), "deviating_at_imputed_steps": int((bad & missing).sum())}
+    if (bad & ~missing).any():
+        return "violation", (f"{idx.size} NaN entries in {'obs' if ser == 'O' else 'cm_future'}: {int((bad & ~missing).sum())} time steps whose cm_future "
+                             f"value was PRESENT changed their debiased value when the dated series were re-ordered; {first}"), stats
+    if bad.any():
+        return "known-step2", (f"{int(bad.sum())} of the {int(missing.sum())} time steps whose cm_future value was missing (imputed by step 2) changed their "
+                               f"debiased value when the dated series were re-ordered (same seed; the control without NaN and every present "
+                               f"time step agree); {first}"), stats
+    return "ok", "", stats
+
+
+def oracle_imputation(rng, n, tier, res, problems):
+    hist = res.extra.setdefault("imputation_oracle", {})
+    for k in range(n):
+        case = gen_imputation_case(rng, k, tier)
+        status, detail, stats = run_imputation_case(case)
+        key = f"{case['debiaser']}:nan-in-{case['nan']['series']}:{status}"
+        hist[key] = hist.get(key, 0) + 1
+        res.count(("imputation", case["debiaser"], case["nan"]["series"], case["L"], case["S"], case["spans"]["F"]["n"]), status != "violation",
+                  sample=dict({kk: case[kk] for kk in ("debiaser", "L", "S", "nan")}, **stats) if k < 2 else None)
+        if status == "known-step2":
+            case = dict(case, what=IMPUTE_WHAT)  # the signature of known finding F21
+            problems.append((f"{case['debiaser']}: {detail}", case))
+        elif status == "violation":
+            problems.append((f"{case['debiaser']} (missing-value oracle): {detail}", case))  # what = "oracle/<name>": an ordinary violation
+
+
 # ------------------------------------------------------------------ the check
 def run(tier, res, force_search=False):
     with warnings.catch_warnings():
@@ -794,6 +890,10 @@ def _run(tier, res, force_search=False):
         oracle(rng, [n for n, _ in LARGE], 3, tier, res, problems, size_ranks=[0, 1, 2])
         oracle(rng, [n for n, _ in LARGE_THOROUGH], 1, tier, res, problems, size_ranks=[2])
 
+    # missing values (prsnratio): control / NaN in cm_future / NaN in obs, same seed — step 2's assignment of the imputed values is the
+    # recorded finding F21, anything else is an ordinary violation
+    oracle_imputation(rng, (3 if tier == "quick" else 12) * boost, tier, res, problems)
+
     # ---- verdict
     seen = set()
     for p, case in problems:
@@ -803,7 +903,12 @@ def _run(tier, res, force_search=False):
         seen.add(key)
         res.violations.append((f"{case.get('what')}: {p}", {"property": PROP, "failing_input": case, "problem": p,
                                                              "signature": {"what": case.get("what")}}))
-    if res.tie_broken and not problems:
+    for desc, rp in res.violations:  # a recorded finding gets no violation file from `finish`: keep its failing input replayable
+        kf = C.match_known(PROP, rp)
+        if kf is not None:
+            C.write_replay(PROP, "known_" + kf.get("id", "finding"), dict(rp, seed=C.seed(), tier=tier))
+    unknown = [v for v in res.violations if C.match_known(PROP, v[1]) is None]
+    if res.tie_broken and not unknown:
         res.violations.append(("proof obligation / correspondence no longer checks: " + "; ".join(res.tie_broken)[:600],
                                {"property": PROP, "failing_input": None, "broken": res.tie_broken, "mismatches": mismatches[:5]}))
     return res
@@ -812,6 +917,13 @@ def _run(tier, res, force_search=False):
 def replay(data):
     """re-run the failing input of a replay file against the real code"""
     case = data.get("failing_input")
+    if case and "nan" in case and "debiaser" in case:  # the missing-value oracle (known finding F21 or an ordinary violation of it)
+        status, detail, stats = run_imputation_case(case)
+        print(f"replay C06 {case['debiaser']} missing values in {case['nan']['series']}: {status} {detail} {stats}")
+        want = (data.get("signature") or {}).get("what")
+        if status == "known-step2" and want == IMPUTE_WHAT:
+            print("REPRODUCED: " + detail[:300])
+        return 1 if status in ("violation", "known-step2") else 0
     if not case or "debiaser" not in case:
         print("replay: no oracle case in this file (skeleton / tie-only violations are re-run by ./check C06 with VERIF_SEED=%s)" % (case or {}).get("verif_seed", "?"))
         return 2
